@@ -1230,3 +1230,22 @@ Proof.
   cbn. unfold slot_at in H. destruct (nth_error (ctab t) p) as [[v|]|]; try discriminate. exact H.
 Qed.
 
+
+(* ------------------------------------------------------------------------------------------------ *)
+(** * Refused opens leave everything as it was; ANend releases every kind of annotation id *)
+Lemma denied_open_changes_nothing_lemma : forall st p acc,
+  (forall r fr, rec_of_path p st = Some (r, fr) ->
+     acc = DFACC_CREATE \/ (0 <? Z.land acc DFACC_WRITE) && (Z.land (faccess fr) DFACC_WRITE =? 0) = true) ->
+  f_step (FOpenDenied p acc) st = (RFail, st).
+Proof.
+  intros st p acc H. unfold f_step.
+  destruct (negb (Z.land acc DFACC_ALL =? acc)); [reflexivity|].
+  destruct (rec_of_path p st) as [[r fr]|] eqn:E; [|reflexivity].
+  destruct (H r fr eq_refl) as [->|W].
+  - reflexivity.
+  - destruct (acc =? DFACC_CREATE); [reflexivity|]. rewrite W. reflexivity.
+Qed.
+
+Lemma anend_releases_every_type_lemma :
+  forall t, In t [AN_DATA_LABEL; AN_DATA_DESC; AN_FILE_LABEL; AN_FILE_DESC] -> In t ANend_types_released.
+Proof. intros t H. simpl in H. unfold ANend_types_released. simpl. intuition (subst; auto). Qed.
